@@ -15,11 +15,6 @@ Proof.
   - destruct (split slash p); discriminate.
 Qed.
 
-Lemma span_seg_no_newline p1 seg rest : span_seg p1 = (seg, rest) -> no_newline p1 = true -> no_newline rest = true.
-Proof.
-  intros Hs Hn. rewrite (SlashJsrProofs.span_seg_app p1 seg rest Hs), no_newline_app in Hn. now apply andb_true_iff in Hn as [_ H].
-Qed.
-
 Lemma rel_ok e v seg :
   tok_rel e v -> is_tail v = false -> tk_admits_jsr O (v_tk v) seg = true ->
   e <> EAll /\
@@ -36,10 +31,10 @@ Proof. destruct tpl; [reflexivity|discriminate]. Qed.
 
 (* the route expression accepts what the structural reading admits *)
 Lemma match_route_complete rb : forall tt p1,
-  Forall2 tok_rel rb tt -> jsr_admits_segs O tt (split slash p1) = true -> no_newline p1 = true ->
+  Forall2 tok_rel rb tt -> jsr_admits_segs O tt (split slash p1) = true ->
   exists c2 f2, jsr_match O rb (slash :: p1) = Some (c2, f2) /\ final_ok f2 = true.
 Proof.
-  induction rb as [|e rb IH]; intros tt p1 Hrel Ha Hn; inversion Hrel as [|? v ? vt Hv Hrest]; subst.
+  induction rb as [|e rb IH]; intros tt p1 Hrel Ha; inversion Hrel as [|? v ? vt Hv Hrest]; subst.
   - cbn [jsr_admits_segs] in Ha. destruct (split slash p1) as [|s0 [|s1 l]] eqn:Es; try discriminate Ha.
     + now contradiction (split_not_nil slash p1).
     + destruct s0; [|discriminate Ha]. apply split_single_empty in Es. subst p1.
@@ -48,16 +43,14 @@ Proof.
   - destruct (split slash p1) as [|s0 segs0] eqn:Esp; [now contradiction (split_not_nil slash p1)|].
     cbn [jsr_admits_segs] in Ha. cbn [jsr_match]. rewrite Ascii.eqb_refl. cbn [negb].
     destruct (is_tail v) eqn:Et.
-    + destruct vt; [|discriminate Ha]. inversion Hrest; subst. rewrite (rel_tail e v Hv Et). rewrite Hn.
+    + destruct vt; [|discriminate Ha]. inversion Hrest; subst. rewrite (rel_tail e v Hv Et).
       exists [p1], []. split; reflexivity.
     + apply andb_true_iff in Ha as [Ha1 Ha2]. destruct (rel_ok e v s0 Hv Et Ha1) as [Hne Hok].
       destruct (span_seg p1) as [seg rest] eqn:Es.
-      pose proof (span_seg_no_newline p1 seg rest Es Hn) as Hnr.
       destruct (span_seg_split p1 seg rest Es) as [[-> Hs]|(r1 & -> & Hs)]; rewrite Hs in Esp; injection Esp as <- <-.
       * apply admits_segs_nil_tpl in Ha2. subst vt. inversion Hrest; subst.
         destruct e; try (now contradiction Hne); rewrite Hok; cbn [negb jsr_match]; eexists _, []; split; reflexivity.
-      * assert (Hn1 : no_newline r1 = true) by (cbn in Hnr; exact Hnr).
-        destruct (IH vt r1 Hrest Ha2 Hn1) as (c2 & f2 & Hm & Hf).
+      * destruct (IH vt r1 Hrest Ha2) as (c2 & f2 & Hm & Hf).
         destruct e; try (now contradiction Hne); rewrite Hok; cbn [negb]; rewrite Hm; eexists _, f2; split; auto.
 Qed.
 
@@ -66,20 +59,19 @@ Lemma match_two_phase_complete ra : forall rt p1 c1 f1 rb tt,
   Forall2 tok_rel ra rt -> Forall2 tok_rel rb tt ->
   jsr_match O ra (slash :: p1) = Some (c1, f1) ->
   jsr_admits_segs O (rt ++ tt) (split slash p1) = true ->
-  no_newline (join [slash] (skipn (List.length rt) (split slash p1))) = true ->
   exists c2 f2, jsr_match O rb f1 = Some (c2, f2) /\ final_ok f2 = true.
 Proof.
-  induction ra as [|e ra IH]; intros rt p1 c1 f1 rb tt Hra Hrb Hm1 Ha Hn; inversion Hra as [|? v ? vt Hv Hrest]; subst; cbn [jsr_match] in Hm1.
-  - rewrite Ascii.eqb_refl in Hm1. cbn [andb] in Hm1. destruct (no_newline (slash :: p1)) eqn:En; [|discriminate Hm1]. injection Hm1 as <- <-.
-    cbn [app List.length skipn] in *. rewrite join_split in Hn. eapply match_route_complete; eauto.
+  induction ra as [|e ra IH]; intros rt p1 c1 f1 rb tt Hra Hrb Hm1 Ha; inversion Hra as [|? v ? vt Hv Hrest]; subst; cbn [jsr_match] in Hm1.
+  - rewrite Ascii.eqb_refl in Hm1. injection Hm1 as <- <-.
+    cbn [app] in *. eapply match_route_complete; eauto.
   - rewrite Ascii.eqb_refl in Hm1. cbn [negb] in Hm1.
     destruct (split slash p1) as [|s0 segs0] eqn:Esp; [now contradiction (split_not_nil slash p1)|].
-    cbn [app jsr_admits_segs List.length skipn] in Ha, Hn.
+    cbn [app jsr_admits_segs] in Ha.
     destruct (is_tail v) eqn:Et.
     + (* the root ends in a tail wildcard: the route template is empty *)
       destruct (vt ++ tt) as [|x l] eqn:Evt; [|discriminate Ha]. apply app_eq_nil in Evt as [-> ->].
       inversion Hrest; subst. inversion Hrb; subst. rewrite (rel_tail e v Hv Et) in Hm1.
-      destruct (no_newline p1); [|discriminate Hm1]. injection Hm1 as <- <-. exists [], []. split; reflexivity.
+      injection Hm1 as <- <-. exists [], []. split; reflexivity.
     + apply andb_true_iff in Ha as [Ha1 Ha2]. destruct (rel_ok e v s0 Hv Et Ha1) as [Hne Hok].
       destruct (span_seg p1) as [seg rest] eqn:Es.
       assert (Hm1' : exists c1', jsr_match O ra rest = Some (c1', f1) /\ s0 = s0).
@@ -115,8 +107,7 @@ Proof.
       assert (E4 : pe_toks (path_expression (r_rel r)) = []) by (inversion Rr as [H0|]; symmetry; exact H0).
       rewrite E4. reflexivity.
     + pose proof (jsr_match_nonempty_path O _ _ _ _ _ Hm1). subst ch. unfold path_segs in Ea. rewrite Ascii.eqb_refl in Ea.
-      apply andb_true_iff in Ea as [Ea1 Ea2].
-      destruct (match_two_phase_complete _ _ _ _ _ _ _ Rw Rr Hm1 Ea1 Ea2) as (c2 & f2 & Hm2 & Hf). now rewrite Hm2.
+      destruct (match_two_phase_complete _ _ _ _ _ _ _ Rw Rr Hm1 Ea) as (c2 & f2 & Hm2 & Hf). now rewrite Hm2.
   - (* matched -> admitted, by soundness *)
     destruct (jsr_match O (pe_toks (path_expression (r_rel r))) fin) as [[c2 f2]|] eqn:Hm2; [|reflexivity].
     destruct (final_ok f2) eqn:Hf; [|reflexivity]. exfalso.
@@ -126,7 +117,7 @@ Proof.
       destruct (pe_toks (path_expression (r_rel r))) as [|e l] eqn:E2; [|discriminate Hm2].
       inversion Rw; inversion Rr; reflexivity.
     + pose proof (jsr_match_nonempty_path O _ _ _ _ _ Hm1). subst ch. unfold path_segs. rewrite Ascii.eqb_refl.
-      destruct (match_two_phase O _ _ _ _ _ _ _ _ _ Rw Rr Hm1 Hm2 Hf) as [A B]. rewrite A. exact B.
+      exact (match_two_phase O _ _ _ _ _ _ _ _ _ Rw Rr Hm1 Hm2 Hf).
 Qed.
 
 Lemma jsr_candidates_perm w path caps fin :
